@@ -1,1 +1,554 @@
-//! C21 helpers (filled in below).
+//! C21 — external tensor data cannot escape the model directory or its file
+//! bounds: scratch tree, location grammar, reference predicate, oracle.
+
+use crate::alloc;
+use crate::onnxw::*;
+use rten::{Model, ModelOptions, Value};
+use rten_tensor::prelude::*;
+use serde::{Deserialize, Serialize};
+use std::path::{Path, PathBuf};
+use vcore::Verdict;
+
+// ---------------------------------------------------------------------------
+// scratch tree
+// ---------------------------------------------------------------------------
+
+/// Files of the tree, relative to `root/model/`, with their contents.
+pub fn tree_files() -> Vec<(String, Vec<u8>)> {
+    let pat = |seed: u8, n: usize| -> Vec<u8> { (0..n).map(|i| (i as u8).wrapping_mul(7).wrapping_add(seed)).collect() };
+    let long = format!("{}.data", "a".repeat(240));
+    vec![
+        ("w.data".into(), pat(1, 64)),
+        ("w.onnx_data".into(), pat(2, 48)),
+        ("w.onnx_data_1".into(), pat(3, 32)),
+        ("secret.txt".into(), b"SECRET-SECRET-SECRET-SECRET-SECRET-SECRET-SECRET-SECRET-SECRET!!".to_vec()),
+        ("sub/inner.data".into(), pat(5, 64)),
+        ("../outside.data".into(), pat(6, 64)),
+        // names that only look like / unlike allowed extensions
+        ("data".into(), pat(7, 64)),
+        (".data".into(), pat(8, 64)),
+        ("x.dat".into(), pat(9, 64)),
+        ("x.data.txt".into(), pat(10, 64)),
+        ("x.DATA".into(), pat(11, 64)),
+        ("x.datax".into(), pat(12, 64)),
+        ("x.onnx_dataz".into(), pat(13, 64)),
+        ("w\u{e9}.data".into(), pat(14, 64)),
+        ("sub\\inner.data".into(), pat(15, 64)),
+        ("C:\\w.data".into(), pat(16, 64)),
+        ("empty.data".into(), vec![]),
+        ("one.data".into(), vec![0xAB]),
+        (long, pat(17, 64)),
+        (" w.data".into(), pat(18, 64)),
+        ("w.data ".into(), pat(19, 64)),
+    ]
+}
+
+pub struct Tree {
+    pub root: PathBuf,
+    pub model_dir: PathBuf,
+    pub files: Vec<(String, Vec<u8>)>,
+}
+
+impl Tree {
+    pub fn create() -> Tree {
+        let root = crate::worker::fresh_dir().join("root");
+        let model_dir = root.join("model");
+        std::fs::create_dir_all(model_dir.join("sub")).expect("mkdir");
+        let files = tree_files();
+        for (rel, content) in &files {
+            let p = model_dir.join(rel);
+            std::fs::write(&p, content).unwrap_or_else(|e| panic!("write {}: {e}", p.display()));
+        }
+        Tree { root, model_dir, files }
+    }
+    /// Content of the file with this name directly inside the model directory.
+    pub fn direct_child(&self, name: &str) -> Option<&[u8]> {
+        self.files.iter().find(|(rel, _)| rel == name && !rel.contains('/')).map(|(_, c)| c.as_slice())
+    }
+}
+
+impl Drop for Tree {
+    fn drop(&mut self) {
+        if let Some(parent) = self.root.parent() {
+            let _ = std::fs::remove_dir_all(parent);
+        }
+    }
+}
+
+// ---------------------------------------------------------------------------
+// location grammar
+// ---------------------------------------------------------------------------
+
+pub const PREFIXES: [&str; 18] = [
+    "", "/", "./", "../", "../../", "//", "sub/", "sub/../", "C:\\", "\\", "..\\", "../model/", "./sub/../", "sub//", "/model/", "~/", "file://", "\u{2215}",
+];
+pub const STEMS: [&str; 12] = ["w", "x", "", ".", "..", "w\u{e9}", "secret", "inner", "outside", "one", "empty", "w\0"];
+pub const EXTS: [&str; 24] = [
+    ".data", ".onnx_data", ".onnx_data_1", ".dat", ".data.txt", ".DATA", ".txt", "", ".datax", ".onnx_dataz", ".Data", ".data ", ".data\0", ".data/",
+    ".data/.", ".data//", ".data/..", "data", ".", ".data.", ".onnx", ".onnx_data/../secret.txt", ".data\\", ".d\u{430}ta",
+];
+
+/// Hand-written locations that the product above does not produce.
+pub fn extra_locations() -> Vec<String> {
+    let long_ok = format!("{}.data", "a".repeat(240));
+    let too_long = format!("{}.data", "b".repeat(300));
+    let very_long = format!("{}.data", "c/".repeat(3000));
+    vec![
+        String::new(),
+        "data".into(),
+        ".data".into(),
+        " w.data".into(),
+        "w.data ".into(),
+        "sub\\inner.data".into(),
+        "C:\\w.data".into(),
+        "C:/w.data".into(),
+        "/etc/passwd".into(),
+        "/proc/self/environ".into(),
+        "../outside.data".into(),
+        "..".into(),
+        ".".into(),
+        "/".into(),
+        "\0".into(),
+        "w.data\0.txt".into(),
+        "secret.txt\0.data".into(),
+        long_ok,
+        too_long,
+        very_long,
+        "w.data/../secret.txt".into(),
+        "w.data/../w.data".into(),
+        "sub/inner.data".into(),
+        "sub".into(),
+        "sub.data".into(),
+        "\u{202e}atad.w".into(),
+        "w.\u{ff44}ata".into(),
+    ]
+}
+
+#[derive(Clone, Debug, PartialEq, Serialize, Deserialize)]
+pub enum Loc {
+    Parts { prefix: u8, stem: u8, ext: u8 },
+    Extra(u8),
+    Text(String),
+}
+
+impl Loc {
+    pub fn text(&self) -> String {
+        match self {
+            Loc::Parts { prefix, stem, ext } => format!(
+                "{}{}{}",
+                PREFIXES[*prefix as usize % PREFIXES.len()],
+                STEMS[*stem as usize % STEMS.len()],
+                EXTS[*ext as usize % EXTS.len()]
+            ),
+            Loc::Extra(i) => {
+                let v = extra_locations();
+                v[*i as usize % v.len()].clone()
+            }
+            Loc::Text(s) => s.clone(),
+        }
+    }
+}
+
+#[derive(Clone, Copy, Debug, PartialEq, Eq, Serialize, Deserialize)]
+pub enum Loader {
+    File,
+    Mmap,
+    Mem,
+}
+
+#[derive(Clone, Debug, PartialEq, Serialize, Deserialize)]
+pub struct Case {
+    pub loc: Loc,
+    /// selectors into the offset / length tables (relative to the target file's length)
+    pub off: u8,
+    pub len: u8,
+    pub loader: Loader,
+    /// element type of the initializer: false = uint8, true = float32
+    pub f32: bool,
+    /// in-memory loader: also register a buffer under exactly the location string
+    pub register_exact: bool,
+    pub optimize: bool,
+}
+
+/// Offsets relative to a file of `l` bytes.
+pub fn offset_table(l: u64) -> Vec<u64> {
+    vec![
+        0,
+        1,
+        4,
+        l / 2,
+        l.saturating_sub(1),
+        l,
+        l.saturating_add(1),
+        l.saturating_add(4),
+        1 << 31,
+        1 << 32,
+        (1 << 63) - 1,
+        1 << 63,
+        u64::MAX - 1,
+        u64::MAX,
+        (u64::MAX - l).saturating_add(1),
+        u64::MAX - 3,
+    ]
+}
+
+/// Lengths relative to a file of `l` bytes and an offset `o`.
+pub fn length_table(l: u64, o: u64) -> Vec<u64> {
+    let fit = l.saturating_sub(o);
+    vec![
+        fit,
+        0,
+        1,
+        4,
+        fit.saturating_sub(1),
+        fit.saturating_add(1),
+        fit.saturating_sub(4),
+        fit.saturating_add(4),
+        l,
+        l.saturating_add(1),
+        1 << 31,
+        1 << 32,
+        1 << 62,
+        (1 << 63) - 1,
+        1 << 63,
+        u64::MAX,
+        u64::MAX - o,                    // sum == u64::MAX
+        (u64::MAX - o).wrapping_add(1),  // sum wraps to 0
+        (u64::MAX - o).wrapping_add(1).wrapping_add(fit), // sum wraps to l: "ends exactly at EOF" modulo 2^64
+        (u64::MAX - o).wrapping_add(2),
+    ]
+}
+
+// ---------------------------------------------------------------------------
+// reference predicate (independent of rten's implementation)
+// ---------------------------------------------------------------------------
+
+/// The file name if `loc`, read as a POSIX relative path, denotes an entry
+/// *directly inside* the base directory without using any traversal token:
+/// no leading '/', and after dropping empty segments and '.' segments that are
+/// not first, exactly one segment that is neither '.' nor '..'.
+///
+/// `nul_ok`: a NUL byte can never be part of a file name, so for the file
+/// loaders a location containing one denotes nothing; for the in-memory loader
+/// names are just map keys.
+pub fn denotes_direct_child(loc: &str, nul_ok: bool) -> Option<&str> {
+    if loc.starts_with('/') || (!nul_ok && loc.contains('\0')) {
+        return None;
+    }
+    let mut segs = Vec::new();
+    for (i, s) in loc.split('/').enumerate() {
+        if s.is_empty() {
+            continue;
+        }
+        if s == "." && i > 0 {
+            continue;
+        }
+        segs.push(s);
+    }
+    match segs.as_slice() {
+        [one] if *one != "." && *one != ".." => Some(one),
+        _ => None,
+    }
+}
+
+/// Extension rule of the property: the text after the last '.', where a
+/// leading '.' does not count, starts with "data" or "onnx_data".
+pub fn extension_ok(name: &str) -> bool {
+    let body = name.strip_prefix('.').unwrap_or(name);
+    let start = name.len() - body.len();
+    match body.rfind('.') {
+        None => false,
+        Some(i) => {
+            let stem_end = start + i;
+            let ext = &name[stem_end + 1..];
+            stem_end > 0 && (ext.starts_with("data") || ext.starts_with("onnx_data"))
+        }
+    }
+}
+
+/// A location that is unambiguously a plain file name.
+pub fn is_plain_name(loc: &str) -> bool {
+    !loc.is_empty() && !loc.contains('/') && !loc.contains('\0') && loc != "." && loc != ".."
+}
+
+// ---------------------------------------------------------------------------
+// model
+// ---------------------------------------------------------------------------
+
+/// `y = Identity(w)` with `w` an initializer stored externally.
+pub fn model_bytes(loc: &str, offset: u64, length: u64, f32: bool) -> Vec<u8> {
+    let n_elems = if f32 { length / 4 } else { length };
+    let w = XTensor {
+        dims: vec![n_elems.min(i64::MAX as u64) as i64],
+        data_type: Some(if f32 { 1 } else { 2 }),
+        name: Some("w".into()),
+        data_location: Some(1),
+        external_data: vec![
+            (Some("location".into()), Some(loc.to_string())),
+            (Some("offset".into()), Some(offset.to_string())),
+            (Some("length".into()), Some(length.to_string())),
+        ],
+        ..Default::default()
+    };
+    let g = XGraph {
+        nodes: vec![XNode {
+            inputs: vec!["w".into()],
+            outputs: vec!["y".into()],
+            name: Some("id".into()),
+            op_type: Some("Identity".into()),
+            domain: None,
+            attrs: vec![],
+        }],
+        initializers: vec![w],
+        inputs: vec![],
+        outputs: vec![XValueInfo { name: Some("y".into()), elem_type: Some(if f32 { 1 } else { 2 }), shape: None, sequence: false }],
+        value_info: vec![],
+    };
+    XModel { ir_version: Some(9), producer: Some("vc-load".into()), graph: Some(g), opsets: vec![(Some(String::new()), Some(20))], metadata: vec![] }
+        .encode()
+}
+
+fn output_bytes(v: &Value) -> Option<Vec<u8>> {
+    match v {
+        Value::UInt8Tensor(t) => Some(t.iter().copied().collect()),
+        Value::FloatTensor(t) => Some(t.iter().flat_map(|x| x.to_le_bytes()).collect()),
+        _ => None,
+    }
+}
+
+fn err_class(e: &str) -> &'static str {
+    const CLASSES: [(&str, &str); 12] = [
+        ("disallowed path", "err:disallowed-path"),
+        ("file too short", "err:too-short"),
+        ("No such file", "err:not-found"),
+        ("Not a directory", "err:not-a-directory"),
+        ("Is a directory", "err:is-a-directory"),
+        ("invalid data length", "err:invalid-length"),
+        ("nul byte", "err:nul-in-path"),
+        ("File name too long", "err:name-too-long"),
+        ("incorrect alignment", "err:alignment"),
+        ("does not match shape", "err:shape-mismatch"),
+        ("invalid shape", "err:invalid-shape"),
+        ("Invalid argument", "err:io-invalid-argument"),
+    ];
+    for (pat, l) in CLASSES {
+        if e.contains(pat) {
+            return l;
+        }
+    }
+    "err:other"
+}
+
+thread_local! {
+    static TREE: std::cell::RefCell<Option<Tree>> = const { std::cell::RefCell::new(None) };
+}
+
+pub fn retire_tree() {
+    TREE.with(|t| *t.borrow_mut() = None);
+}
+
+/// The C21 oracle for one case.
+pub fn oracle(c: &Case) -> Verdict {
+    TREE.with(|t| {
+        let mut t = t.borrow_mut();
+        if t.is_none() {
+            *t = Some(Tree::create());
+        }
+        oracle_in(c, t.as_ref().unwrap())
+    })
+}
+
+fn oracle_in(c: &Case, tree: &Tree) -> Verdict {
+    let loc = c.loc.text();
+    // the file the location is "about": the direct child it denotes, else w.data's length as scale
+    let denoted: Option<&str> = denotes_direct_child(&loc, c.loader == Loader::Mem);
+    let denoted_content: Option<&[u8]> = denoted.and_then(|n| tree.direct_child(n));
+    let exact_buf: Vec<u8> = (0..40u8).map(|i| i.wrapping_mul(13).wrapping_add(101)).collect();
+    // what the loader may legitimately read from
+    let source: Option<Vec<u8>> = match c.loader {
+        Loader::File | Loader::Mmap => denoted_content.map(|c| c.to_vec()),
+        Loader::Mem => {
+            if c.register_exact {
+                // the buffer registered under exactly `loc` wins over a tree entry of the same name
+                Some(exact_buf.clone())
+            } else {
+                tree.files.iter().find(|(rel, _)| *rel == loc).map(|(_, c)| c.clone())
+            }
+        }
+    };
+    let scale = source.as_ref().map(|s| s.len() as u64).unwrap_or(64);
+    let offs = offset_table(scale);
+    let mut offset = offs[c.off as usize % offs.len()];
+    let lens = length_table(scale, offset);
+    let mut length = lens[c.len as usize % lens.len()];
+    if c.f32 {
+        // keep float tensors element-aligned so that alignment is not the reason for an error
+        offset &= !3;
+        length &= !3;
+    }
+    let model = model_bytes(&loc, offset, length, c.f32);
+    let model_path = tree.model_dir.join("m.onnx");
+    let end: u128 = offset as u128 + length as u128;
+
+    let mut labels: Vec<&'static str> = vec![match c.loader {
+        Loader::File => "loader:file",
+        Loader::Mmap => "loader:mmap",
+        Loader::Mem => "loader:mem",
+    }];
+
+    // ---- load ------------------------------------------------------------
+    let mut opts = ModelOptions::with_all_ops();
+    opts.enable_optimization(c.optimize);
+    let budget = alloc::budget_for(model.len() + scale as usize);
+    let (res, max_alloc) = alloc::measure(budget, || {
+        vcore::catch(|| -> Result<Model, String> {
+            match c.loader {
+                Loader::File => {
+                    std::fs::write(&model_path, &model).map_err(|e| format!("harness: {e}"))?;
+                    opts.load_file(&model_path).map_err(|e| e.to_string())
+                }
+                Loader::Mmap => {
+                    std::fs::write(&model_path, &model).map_err(|e| format!("harness: {e}"))?;
+                    // Safety: files in the scratch tree are private to this thread and are
+                    // not modified while a model that maps them is alive.
+                    unsafe { opts.load_mmap(&model_path) }.map_err(|e| e.to_string())
+                }
+                Loader::Mem => {
+                    for (rel, content) in &tree.files {
+                        opts.external_data(rel, content.clone());
+                    }
+                    if c.register_exact {
+                        opts.external_data(&loc, exact_buf.clone());
+                    }
+                    opts.load(model.clone()).map_err(|e| e.to_string())
+                }
+            }
+        })
+    });
+
+    let traversal = loc.contains("..") || loc.starts_with('/') || loc.contains('/') || loc.contains('\\');
+    let in_range = source.as_ref().map(|s| end <= s.len() as u128).unwrap_or(false);
+    let touches_end = source.as_ref().map(|s| end == s.len() as u128 || end == s.len() as u128 + 1 || end >= 1 << 64).unwrap_or(false);
+    let nontrivial = traversal || touches_end || denoted.map(|d| d != loc).unwrap_or(true);
+
+    if max_alloc > budget {
+        return Verdict::fail(
+            format!("extdata:alloc-before-bounds-check:{:?}", c.loader).to_lowercase(),
+            format!(
+                "loading a {}-byte model whose tensor declares external data location {loc:?} offset {offset} length {length} requested a single allocation of {max_alloc} bytes (> 64*(model+file) + 1 MiB = {budget}): the length is trusted before it is compared with the file; with the system allocator such a request aborts the process instead of returning a load error",
+                model.len()
+            ),
+        );
+    }
+
+    let model = match res {
+        Err(p) => {
+            return Verdict::fail(
+                format!("extdata:panic:{}", crate::oracle::psig(&p)),
+                format!("loader {:?}, location {loc:?}, offset {offset}, length {length}: panicked: {} at {}", c.loader, p.msg, p.loc()),
+            )
+        }
+        Ok(Err(e)) if e.starts_with("harness:") => return Verdict::Discard,
+        Ok(Err(e)) => {
+            // dual: a conforming request must succeed
+            let conforming = is_plain_name(&loc) && extension_ok(&loc) && source.is_some() && in_range && length <= i64::MAX as u64;
+            if conforming {
+                return Verdict::fail(
+                    format!("extdata:conforming-request-refused:{:?}", c.loader).to_lowercase(),
+                    format!(
+                        "loader {:?}: location {loc:?} is a plain file name with an allowed extension, the file has {} bytes and offset {offset} + length {length} lies inside it, but the load failed: {e}",
+                        c.loader,
+                        source.as_ref().unwrap().len()
+                    ),
+                );
+            }
+            labels.push(err_class(&e));
+            labels.push(if traversal { "loc:traversal/separator" } else if is_plain_name(&loc) { "loc:plain" } else { "loc:other" });
+            return Verdict::pass_l(nontrivial, labels);
+        }
+        Ok(Ok(m)) => m,
+    };
+
+    // ---- Ok => confinement ------------------------------------------------
+    let Some(name) = denoted else {
+        return Verdict::fail(
+            "extdata:escape:location-is-not-a-direct-child",
+            format!("loader {:?}: location {loc:?} does not denote a file directly inside the model directory, but the load succeeded", c.loader),
+        );
+    };
+    if !extension_ok(name) {
+        return Verdict::fail(
+            "extdata:escape:extension-not-allowed",
+            format!("loader {:?}: location {loc:?} (file name {name:?}) has no data/onnx_data extension, but the load succeeded", c.loader),
+        );
+    }
+    let Some(src) = source else {
+        return Verdict::fail(
+            "extdata:ok-without-source",
+            format!("loader {:?}: location {loc:?}: nothing exists under that name, but the load succeeded", c.loader),
+        );
+    };
+    if end > src.len() as u128 {
+        return Verdict::fail(
+            format!("extdata:range-outside-file:{:?}", c.loader).to_lowercase(),
+            format!(
+                "loader {:?}: location {loc:?}: offset {offset} + length {length} = {end} exceeds the file length {}, but the load succeeded",
+                c.loader,
+                src.len()
+            ),
+        );
+    }
+    // ---- run: Identity(w) must be exactly file[offset..][..length] ----------
+    let expected: Vec<u8> = src[offset as usize..(offset + length) as usize].to_vec();
+    // re-read from disk for the file loaders (the harness' own view of the file)
+    if matches!(c.loader, Loader::File | Loader::Mmap) {
+        let on_disk = std::fs::read(tree.model_dir.join(name)).unwrap_or_default();
+        if on_disk != src {
+            return Verdict::Discard;
+        }
+    }
+    let run = vcore::catch(|| -> Result<Option<Vec<u8>>, String> {
+        let y = model.node_id("y").map_err(|e| e.to_string())?;
+        let out = model.run(vec![], &[y], None).map_err(|e| e.to_string())?;
+        Ok(output_bytes(&out[0]))
+    });
+    match run {
+        Err(p) => Verdict::fail(
+            format!("extdata:run-panic:{}", crate::oracle::psig(&p)),
+            format!("location {loc:?} offset {offset} length {length}: running Identity(w) panicked: {} at {}", p.msg, p.loc()),
+        ),
+        Ok(Err(e)) => Verdict::fail("extdata:run-failed", format!("location {loc:?} offset {offset} length {length}: load succeeded but Identity(w) failed: {e}")),
+        Ok(Ok(None)) => Verdict::fail("extdata:wrong-output-type", format!("location {loc:?}: output has an unexpected type")),
+        Ok(Ok(Some(got))) => {
+            if got != expected {
+                return Verdict::fail(
+                    "extdata:wrong-bytes",
+                    format!(
+                        "loader {:?}: location {loc:?} offset {offset} length {length}: Identity(w) returned {:?}.. but the file holds {:?}.. at that range",
+                        c.loader,
+                        &got[..got.len().min(16)],
+                        &expected[..expected.len().min(16)]
+                    ),
+                );
+            }
+            labels.push("ok:data-matches-file-range");
+            if end == src.len() as u128 {
+                labels.push("ok:range-ends-at-eof");
+            }
+            if length == 0 {
+                labels.push("ok:empty-range");
+            }
+            if name != loc {
+                labels.push("ok:non-canonical-spelling-of-direct-child");
+            }
+            Verdict::pass_l(nontrivial, labels)
+        }
+    }
+}
+
+pub fn scratch_root() -> PathBuf {
+    crate::worker::tmp_root()
+}
+
+#[allow(unused)]
+fn _p(_: &Path) {}
